@@ -399,7 +399,7 @@ def run_check(prop, tier, only=None, jobs=None, seed=0):
     if not sel:
         print("no harness registered for %s at tier %s" % (prop, tier))
         return 2
-    jobs = jobs or int(os.environ.get("VERIF_JOBS", "8"))
+    jobs = jobs or int(os.environ.get("VERIF_JOBS", "4"))  # 4 x 12 GiB caps fit the 62 GiB machine
     logdir = os.path.join(CACHE, "logs", "%s-%s-%d" % (prop, tier, os.getpid()))
     os.makedirs(logdir, exist_ok=True)
     units = []
